@@ -16,7 +16,7 @@ def cellToJson : Cell → Json
   | .none => Json.null
   | .str s => str s
   | .bool b => Json.bool b
-  | .int i => Json.mkObj [("i", Json.num (JsonNumber.fromInt i))]
+  | .int i t => Json.mkObj [("i", Json.num (JsonNumber.fromInt i)), ("if", str t)]
   | .float t => Json.mkObj [("f", str t)]
   | .dt t => Json.mkObj [("d", str t)]
   | .other t => Json.mkObj [("o", str t)]
@@ -28,7 +28,10 @@ def cellOfJson (j : Json) : Except String Cell :=
   | .bool b => pure (.bool b)
   | .obj _ =>
     match j.getObjVal? "i" with
-    | .ok v => do let i ← v.getInt?; pure (.int i)
+    | .ok v => do
+      let i ← v.getInt?
+      let t ← (← j.getObjVal? "if").getStr?
+      pure (.int i t.toList)
     | .error _ =>
     match j.getObjVal? "f" with
     | .ok v => do let s ← v.getStr?; pure (.float s.toList)
